@@ -116,6 +116,12 @@ func (sh *SignedHeader) ValidateBasic() error {
 		return ErrProposerAddressMismatch
 	}
 
+	// The signer's address must be the address of the key it carries, otherwise any key could
+	// sign in the proposer's name
+	if sh.Signer.PubKey == nil || !bytes.Equal(sh.Signer.Address, KeyAddress(sh.Signer.PubKey)) {
+		return ErrProposerAddressMismatch
+	}
+
 	var (
 		bz  []byte
 		err error
